@@ -230,6 +230,65 @@ def coq_value(text):
 
 
 
+
+# ------------------------------------------------------------------ judging inside Coq (sharded, parallel)
+def coqc_shard(sdir, src, out=None, timeout=3000):
+    """compile <src> (relative to coq/) with the shard directory as an extra root of Verif"""
+    cmd = ["timeout", str(timeout), "coqc", "-noglob"] + vlib.COQ_Q + ["-Q", sdir, "Verif"] + vlib.COQ_W
+    if out:
+        cmd += ["-o", out]
+    return vlib.sh(cmd + [src], cwd=vlib.COQ, timeout=timeout + 60, stack_unlimited=True)
+
+
+def judge_shard(sdir, lines, diag_only):
+    os.makedirs(sdir, exist_ok=True)
+    for f in os.listdir(sdir):
+        os.remove(os.path.join(sdir, f))
+    write_gen(lines, os.path.join(sdir, "PolicyCasesGen.v"))
+    c1 = coqc_shard(sdir, os.path.join(sdir, "PolicyCasesGen.v"))
+    if c1.returncode != 0:
+        return None, False, "generated case file does not compile: " + c1.stderr[-1500:]
+    ok = False
+    if not diag_only:
+        c2 = coqc_shard(sdir, "Tables/PolicyCasesCheck.v", os.path.join(sdir, "PolicyCasesCheck.vo"))
+        v = coq_value(c2.stdout) if c2.stdout else None
+        if c2.returncode == 0 and v is not None:
+            return v, True, ""
+    # on-break protocol: the diagnosis file evaluates the same judgement without the theorem and adds
+    # a counter-assignment found by the oracle
+    c3 = coqc_shard(sdir, "Tables/PolicyCasesDiag.v", os.path.join(sdir, "PolicyCasesDiag.vo"))
+    v = coq_value(c3.stdout) if c3.returncode == 0 else None
+    if v is None:
+        return None, False, "cases_ok fails and the diagnosis did not run: " + (c3.stderr or c3.stdout)[-1500:]
+    return v, ok, ""
+
+
+def judge(lines, tag, diag_only=False):
+    """-> (verdict entries with global indices, cases_ok proved on every shard, error text)"""
+    import concurrent.futures
+    stale = os.path.join(vlib.COQ, "Tables")
+    for f in ("PolicyCasesGen.v", "PolicyCasesGen.vo", "PolicyCasesCheck.vo", "PolicyCasesDiag.vo"):
+        if os.path.exists(os.path.join(stale, f)):
+            os.remove(os.path.join(stale, f))
+    c15 = vlib.coqc("Tables/PolicyCasesDefs.v")
+    if c15.returncode != 0:
+        raise RuntimeError("PolicyCasesDefs.v does not compile: " + c15.stderr[-2000:])
+    k = max(1, min(12, (len(lines) + 3999) // 4000))
+    shards = [lines[i::k] for i in range(k)]
+    base = os.path.join(vlib.WORK, "c18-%s" % tag)
+    with concurrent.futures.ThreadPoolExecutor(max_workers=k) as ex:
+        res = list(ex.map(lambda i: judge_shard(os.path.join(base, "s%d" % i), shards[i], diag_only), range(k)))
+    verdicts, all_ok, errs = [], True, []
+    for i, (v, ok, err) in enumerate(res):
+        all_ok = all_ok and ok
+        if v is None:
+            errs.append(err)
+            continue
+        for entry in v:
+            verdicts.append((i + k * entry[0],) + tuple(entry[1:]))
+    verdicts.sort(key=lambda e: e[0])
+    return verdicts, all_ok, "; ".join(errs)
+
 # ------------------------------------------------------------------ directed search (on-break protocol)
 def enc_pol(p):
     x = p[0]
@@ -318,12 +377,8 @@ def directed_search(hbin, tier, tdir, seeds):
         for t in inputs:
             f.write(" ".join(map(str, t)) + "\n")
     lines = run_engine(hbin, ["eval", inp], tier)
-    write_gen(lines, os.path.join(tdir, "PolicyCasesGen.v"))
-    if vlib.coqc("Tables/PolicyCasesGen.v").returncode != 0:
-        return [], lines
-    c3 = vlib.coqc("Tables/PolicyCasesDiag.v")
-    v = coq_value(c3.stdout) if c3.returncode == 0 else None
-    return (v or []), lines
+    v, _, _ = judge(lines, "directed", diag_only=True)
+    return v, lines
 
 # ------------------------------------------------------------------ evidence helpers
 def histogram(lines):
@@ -403,24 +458,10 @@ def run(rep, tier, seed, replay):
     else:
         lines = run_engine(hbin, ["gen", str(seed), tier], tier)
 
-    write_gen(lines, os.path.join(tdir, "PolicyCasesGen.v"))
-    c1 = vlib.coqc("Tables/PolicyCasesGen.v")
-    if c1.returncode != 0:
-        raise RuntimeError("generated case file does not compile: " + c1.stderr[-2000:])
-    c15 = vlib.coqc("Tables/PolicyCasesDefs.v")
-    if c15.returncode != 0:
-        raise RuntimeError("PolicyCasesDefs.v does not compile: " + c15.stderr[-2000:])
-    c2 = vlib.coqc("Tables/PolicyCasesCheck.v")
-    verdicts = coq_value(c2.stdout) if c2.stdout else None
-    tie_ok = c2.returncode == 0 and verdicts is not None
-    if c2.returncode != 0:
-        # on-break protocol: the diagnosis file evaluates the same judgement without the theorem
-        c3 = vlib.coqc("Tables/PolicyCasesDiag.v")
-        verdicts = coq_value(c3.stdout) if c3.returncode == 0 else None
-        if verdicts is None:
-            rep.violation("cases-diag", "cases_ok fails and the diagnosis did not run: " + (c3.stderr or c2.stderr)[-800:],
-                          {"property": PID, "broken_tie": "Tables/PolicyCasesCheck.v: cases_ok"}, found_input=False)
-            verdicts = []
+    verdicts, tie_ok, err = judge(lines, "replay" if replay else "main")
+    if err:
+        rep.violation("cases-diag", err, {"property": PID, "broken_tie": "Tables/PolicyCasesCheck.v: cases_ok", "log": err},
+                      found_input=False)
 
     n_known = collections.Counter()
     mismatches = []
@@ -472,13 +513,13 @@ def run(rep, tier, seed, replay):
                     rep.violation("spec:%s" % FUNCS[code % 10], what_failed(code, d2), robj, True)
                     spec_failed_cases.add(-1)
     for idx, code, robj in mismatches:
-        if idx in spec_failed_cases:
-            continue
+        if spec_failed_cases:
+            break       # the broken correspondence is explained by a property failure reported with its input
         robj["directed_search_inputs_tried"] = searched
         robj["broken_tie"] = "model/code correspondence (Tables/PolicyCasesCheck.v: cases_ok), function %s" % robj["function"]
         robj["judgement"] = "implementation differs from the model; its output still satisfies the specification on this case"
         rep.violation("tie:%s" % robj["function"], "implementation differs from the model on " + what_failed(code, robj),
-                      robj, bool(spec_failed_cases))
+                      robj, False)
 
     n_cases = len(lines)
     per_case_checks = 0
@@ -498,7 +539,7 @@ def run(rep, tier, seed, replay):
     rep.coverage.update({
         "obligations": obligations, "discharged": discharged,
         "checker_cmd": "make -C coq ; coqc Properties/C18.v ; verif-harness policy gen %d %s | tools/props/c18.py -> "
-                       "coqc Tables/PolicyCasesGen.v Tables/PolicyCasesCheck.v" % (seed, tier),
+                       "work/c18-main/s*/PolicyCasesGen.v ; coqc Tables/PolicyCasesCheck.v per shard (parallel)" % (seed, tier),
         "trusted_base": vlib.TRUSTED_BASE_COMMON + [
             "Uint63 primitive integers (unpacking of the observation words only; no axioms used)",
             "harness/src/policy.rs: construction of policies through the public constructors and read-back of results"],
@@ -508,9 +549,9 @@ def run(rep, tier, seed, replay):
         "rule": "exhaustive: every semantic policy <= %d nodes over {UNSAT,TRIVIAL,pk(A),pk(B),older(5),after(100)}, every "
                 "semantic policy of 6..%d nodes over {UNSAT,TRIVIAL,pk(A)} (arity <= 3), entails on all ordered pairs of policies <= 3 x <= %d nodes "
                 "over 5 leaves and on policies with 8..25 terminals over 2..5 atoms, "
-                "every concrete policy <= 4 nodes (and/or/thresh arity <= 3) over 7 leaves; + seeded random semantic / entailment / "
+                "every concrete policy <= 4 nodes (and/or/thresh arity <= 3) over 7 leaves (thorough: + all of 5 nodes over 5 leaves); + seeded random semantic / entailment / "
                 "concrete cases up to 30 nodes and 8 distinct atoms; every output compared with the model and judged by the "
-                "truth table over all assignments" % ((6, 7, 4) if tier == "thorough" else (5, 6, 3)),
+                "truth table over all assignments" % ((6, 8, 4) if tier == "thorough" else (5, 7, 3)),
         "input_distribution": histogram(lines),
         "samples": samples,
     })
